@@ -110,6 +110,8 @@ pub fn families() -> Vec<Value> {
         v.push(big("fixedcap", json!({"preset": 0, "mbs": 2048, "blocks": 70, "align": 16, "flags": flags}), "fill_free_refill", 70, 128, 144, flags));
         v.push(big("fixedcap", json!({"preset": 0, "mbs": 1536, "blocks": 9, "align": 8, "flags": flags}), "mixed", 300, 120, 1030, flags));
     }
+    // 4095 blocks of 1 MiB: block offsets up to the end of the 32-bit range (lazy and eager backing memory)
+    for flags in [1u64, 3] { v.push(big("fixedcap", json!({"preset": 0, "mbs": 1 << 20, "blocks": 4095, "align": 8, "flags": flags}), "exhaust", 4098, 1 << 20, (1 << 19) + 1, flags)); }
     // ---- bump allocator / arena: capacities around 64 KiB / 1 MiB filled to the last byte, reset and scopes in between
     for (cap, arena) in [(65536u64, 0u64), (65536, 1), (1 << 20, 0), ((1 << 20) + 1, 1), (4096, 0), (8192, 1)] {
         let mut ops = vec![vec![0u64, 1, 1]];
